@@ -50,7 +50,7 @@ impl MappingsDecoder<'_> {
     &&& self.current_data_pos as int + self.mappings_iter.remaining().len() <= u32::MAX
   }
   pub closed spec fn ds(&self) -> DS {
-    DS { d: self.current_data@, pos: self.current_data_pos, val: self.current_value, vpos: self.current_value_pos, line: self.generated_line }
+    DS { d: self.current_data@, pos: self.current_data_pos as usize, val: self.current_value as i64, vpos: self.current_value_pos as usize, line: self.generated_line as u32 }
   }
   #[verifier::prophetic]
   pub closed spec fn rem(&self) -> Seq<u8> { self.mappings_iter.remaining().map_values(|x: &u8| *x) }
@@ -112,7 +112,7 @@ def build(u):
           "  assert(B64@[*c as int] == tbl(*c));\n"
           "}", nth=1, regex=True, tags=F)
     it.at("next", "before", r"let\s+final_value\s*=", "next.hint.shr", "hint",
-          "proof { let x = self.current_value; assert((x >> 1) > -0x4000_0000_0000_0001i64 && (x >> 1) < 0x4000_0000_0000_0000i64) by (bit_vector); }",
+          "proof { let x = self.current_value as i64; assert((x >> 1) > -0x4000_0000_0000_0001i64 && (x >> 1) < 0x4000_0000_0000_0000i64) by (bit_vector); }",
           regex=True)
     u.contracted += [
         ("MappingsDecoder::new", "src/decoder.rs"),
